@@ -160,7 +160,7 @@ impl<'a> Packet<'a> {
             final(self).receiver.errored@ == old(self).receiver.errored@,
             final(self).receiver.acted@ && !old(self).receiver.acted@ ==> old(self).packet.genuine@,
     {
-//@ splice-stmts dc/s2n-quic-dc/src/stream/recv/packet.rs "reader::Storage for Packet<'_, '_, D, K, C, Pub> where D: crypto::open::Application, K: crypto::open::control::Stream, C: Clock + ?Sized, Pub: event::ConnectionPublisher," read_chunk "from=if !self.is_decrypted_in_place"
+//@ splice-stmts dc/s2n-quic-dc/src/stream/recv/packet.rs "reader::Storage for Packet<'_, '_, D, K, C, Pub> where D: crypto::open::Application, K: crypto::open::control::Stream, C: Clock + ?Sized, Pub: event::ConnectionPublisher," read_chunk "from=if "
         Ok(())
     }
 }
